@@ -16,7 +16,7 @@ def run_tests(files, tag, timeout=3000, extra=()):
     d = workdir(tag)
     tr = d / "suite.ndjson"
     env = dict(os.environ, PYHF_VERIF="1", PYHF_VERIF_TRACE=str(tr),
-               PYTHONPATH=os.pathsep.join([pyhf_src(), str(VERIF / "harness" / "pytest_plugin")]), OMP_NUM_THREADS="2")
+               PYTHONPATH=os.pathsep.join([pyhf_src(), str(VERIF / "harness" / "pytest_plugin"), str(VERIF / "harness")]), OMP_NUM_THREADS="2")
     cmd = [PY, "-m", "pytest", "-q", "-p", "no:cacheprovider", "-p", "verif_trace", "--timeout=900", "-x" if False else "-q", *extra, *files]
     p = subprocess.run(cmd, cwd=REPO, env=env, stdout=subprocess.PIPE, stderr=subprocess.STDOUT, text=True, timeout=timeout)
     recs = []
@@ -91,4 +91,50 @@ def backend_traces(tests):
         t = to_trace(0, (start["backend"], start["precision"]), start["registry"], recs, init_opt=start.get("optimizer", "scipy"))
         t["label"] = nodeid
         out.append(t)
+    return out
+
+
+def hypotest_traces(tests, skip_failed=True):
+    """one trace per asymptotic hypotest call a test made (ht.call ... ht.return bracket from the plugin's observer)"""
+    out = []
+    for nodeid, start, recs, failed in tests:
+        if failed and skip_failed:
+            continue
+        cur = None
+        k = 0
+        for r in recs:
+            ev = r["ev"]
+            if ev == "ht.call":
+                cur = {"call": r, "fits": []}
+            elif ev == "ht.return" and cur is not None:
+                c = cur["call"]
+                cur_ = cur
+                cur = None
+                if c["calc"] != "asymptotics" or c["poi"] is None or not r.get("asimov"):
+                    continue
+                try:
+                    evs = [{"ev": "ht.call", "kind": c["kind"], "calc": c["calc"], "ntoys": 0, "mu": L(c["mu"]), "poi": c["poi"],
+                            "obs": [L(x) for x in c["obs"]], "asimov": [L(x) for x in r["asimov"]], "sig": [], "bkg": [],
+                            "tail": c["tail"], "exp": c["exp"], "expset": c["expset"], "calcflag": c["calcflag"]}]
+                    for f in cur_["fits"]:
+                        e = {"ev": f["ev"]}
+                        if f["ev"] == "fit.shim":
+                            e.update(npars=f["npars"], init=[L(x) for x in f["init"]], bounds=[[L(a), L(b)] for a, b in f["bounds"]],
+                                     fixed_vals=[[i, L(v)] for i, v in f["fixed_vals"]], do_grad=f["do_grad"], do_stitch=f["do_stitch"],
+                                     x0=[L(x) for x in f["x0"]], vbounds=[[L(a), L(b)] for a, b in f["vbounds"]],
+                                     mfixed=[[i, L(v)] for i, v in f["mfixed"]], data=[L(x) for x in f["data"]])
+                        elif f["ev"] == "fit.raw":
+                            e.update(x=[L(x) for x in f["x"]], fun=L(f["fun"]), success=f["success"])
+                        elif f["ev"] == "fit.return":
+                            e.update(x=[L(x) for x in f["x"]], fun=L(f["fun"]), fun_ulps=0)
+                        else:
+                            continue
+                        evs.append(e)
+                    evs.append({"ev": "ht.return", "layout": r["layout"]})
+                except (ValueError, TypeError):
+                    continue
+                k += 1
+                out.append({"id": 0, "label": f"{nodeid}#{k}", "events": evs})
+            elif cur is not None and ev.startswith("fit."):
+                cur["fits"].append(r)
     return out
